@@ -76,11 +76,7 @@ Definition nstep (s : nst) (o : nop) : res (nst * option N) :=
   let m := ns_m s in
   match o with
   | NEdit e bname =>
-      match (match e with
-             | ItAddGlobal _ => if existsb is_local (s_items (m_f m)) then step m e
-                                else Panic 65      (* ModuleIterator::new reads metadata[0]: no local function (D12) *)
-             | _ => step m e
-             end) with
+      match step m e with
       | Panic w => Panic w
       | Ok (m', r) =>
           let s' := mkNS m' (ns_imp s) (ns_body s) in
